@@ -168,6 +168,9 @@ def run(chk, facts, tier, only=None):
         import c08
         chk.include(c08, "C08.R5", "C02.R10", facts)    # dispatch: each expected constructor (and each big-number fast path) goes to its own routine
         chk.include(c08, "C08.R7", "C02.R11", facts)    # ... and each routine hands the visitor the kind of value it is for (no shortcut around validation)
+        chk.include(c08, "C08.R2", "C02.R12", facts)    # fast paths and accessors are built from (expected, wire) in that order, per component
+        import c10
+        chk.include(c10, "C10.R6", "C02.R13", facts)    # a variant tag whose payload coerces (null at opt T) gets the accessor of the *expected* payload
 
     for rid, desc, fn in (("C02.R1", "every wire read is preceded by tests of both the expected and the wire type", r1),
                           ("C02.R2", "the optional-omission set is {opt, null, reserved} at every site that implements it", r2),
